@@ -227,6 +227,17 @@ def run(ctx, tier):
                        'extraction regex matches every command text the hooks can pass (a non-match splices the whole command in)', floor=1)
     from .rules_c05 import regex_rule
     regex_rule(ctx, 'C07.R4')
+    # "a firmware-style reading yields exactly the intended values": the values themselves are decided by the algebra of the
+    # generated retract / recover pair (C04.R3 / R4) and by the exit rules of C03 - premises here
+    ctx.rule('C07.R6', 'the generated G92 E / G1 E pair reads back as the intended values in the units in force: G92 E is the logical '
+                       'value of (tracked E + amount), G1 E the logical tracked E, the tracked position is restored (C04.R3 / R4)', floor=2)
+    from .rules_c04 import addcommands_rule
+    addcommands_rule(ctx, 'C07.R6', 'C07.R6')
+    from . import rules_c03
+    from .pathfacts import S_OID as _S
+    ctx.rule('C03.R1', 'C03: exit composition - pending, exit script, G92 E, then Z before XY iff rising / after iff falling / absent iff equal', floor=6)
+    ctx.rule('C03.R4', 'C03: every word of the exit commands is the logical value of the tracked native position in the current frame', floor=6)
+    rules_c03.exit_rules(ctx, make_interp(ctx.model), {('fld', _S, 'excluding'): [True]}, 'exitExcludedRegion')
     ctx.rule('C07.R5', 'the parameter text spliced into a generated G10 / G11 is the parameter text of one command of the file: '
                        'RetractionState.originalCommand is assigned in the constructor only, never extended or rewritten (two '
                        'commands\' parameters glued together repeat letters)', floor=1)
